@@ -90,7 +90,7 @@ def canon(tr):
             t["order_id"] = rid(t["order_id"])
             t["exec_id"] = rid(("x", t["exec_id"]))
             out.append(["TRADE", fr(e["cal"]), fr(t), osnap(e["order"]), fr(e["accounts"])])
-        elif kind in ("UNIVERSE_ORDER", "OWN_INSTRUMENT", "SCHEDULED"):
+        elif kind in ("UNIVERSE_ORDER", "OWN_INSTRUMENT", "SCHEDULED", "QUERY"):
             out.append([kind, fr(e)])
         elif "order" in e and kind.startswith("ORDER_"):
             out.append([kind, fr(e["cal"]), osnap(e["order"]), e.get("reason"), e.get("book"), fr(e["accounts"]), [rid(i) for i in e["open"]]])
